@@ -16,6 +16,7 @@ CONSTANTS
   MaxTops = 1
   AliasAlpha <- AliasFormsT
   MaxAliases = 2
+  NestedLike = FALSE
   CmdKinds <- IgnInv
 INVARIANT SafeVis
 INVARIANT SafeAccess
